@@ -107,7 +107,11 @@ Section Visit.
   (* the expected type of the items of a list literal *)
   Definition list_item_type (c : ctx) : option ty :=
     opt_bind (current_input_type_literal c)
-             (fun t => match t with TList inner => Some inner | _ => None end).
+             (fun t => match t with
+                       | TList inner => Some inner
+                       | TNonNull (TList inner) => Some inner
+                       | _ => None
+                       end).
 
   (* the expected type of field [k] of an object literal *)
   Definition object_field_type (c : ctx) (k : name) : option ty :=
@@ -218,21 +222,14 @@ Section Visit.
     visit_selection_set (o_span o) (o_sels o) >>
     emit (Leave (NOperation o)).
 
-  (* "Awkward hack": fall back to an object type literally named Mutation / Subscription *)
-  Definition hack_root (n : name) : option name :=
-    match type_by_name s n with
-    | Some (TDObject m _ _) => Some m
-    | _ => None
-    end.
-
   (* None = the query_type().unwrap() panic *)
   Definition root_type_name (o : operation) : option (option name) :=
     match o_kind o with
     | OpQuery | OpSelSet => match query_type s with Some t => Some (Some (td_name t)) | None => None end
     | OpMutation =>
-        Some (match mutation_type s with Some t => Some (td_name t) | None => hack_root "Mutation" end)
+        Some (opt_map td_name (mutation_type s))
     | OpSubscription =>
-        Some (match subscription_type s with Some t => Some (td_name t) | None => hack_root "Subscription" end)
+        Some (opt_map td_name (subscription_type s))
     end.
 
   Definition definition_panics (x : definition) : bool :=
@@ -254,6 +251,26 @@ Section Visit.
 
 End Visit.
 
+Arguments vfun St : clear implicits.
+Arguments emit {St} h e _ _.
+Arguments andthen {St} f g _ _.
+Arguments seqv {St A} f l _ _.
+Arguments with_ctx {St} f _ _.
+Arguments with_type {St} s t f _ _.
+Arguments with_parent_type {St} f _ _.
+Arguments with_field {St} fd f _ _.
+Arguments with_input_type {St} s t f _ _.
+Arguments visit_input_value {St} h s v _ _.
+Arguments visit_arguments {St} h s defs args _ _.
+Arguments visit_directives {St} h s dirs _ _.
+Arguments visit_variable_definitions {St} h s vars _ _.
+Arguments visit_selection {St} h s sel _ _.
+Arguments visit_selection_set {St} h s sp sels _ _.
+Arguments visit_fragment_definition {St} h s f _ _.
+Arguments visit_operation_definition {St} h s o _ _.
+Arguments visit_definition {St} h s x _ _.
+Arguments visit_document {St} h s d _ _.
+
 (* The walk panics (query_type().unwrap()) iff some query operation is met while the schema
    has no query root object.  The panic aborts the walk at that definition; every caller in
    the model checks this first and returns Panic. *)
@@ -263,7 +280,7 @@ Definition document_panics (s : sdocument) (d : document) : bool :=
 (* the trace: every callback with the context it sees *)
 Definition trace_step (acc : list (event * ctx)) (e : event) (c : ctx) := (e, c) :: acc.
 Definition tr_document (s : sdocument) (d : document) (c : ctx) : ctx * list (event * ctx) :=
-  let '(c', acc) := visit_document _ trace_step s d c [] in (c', rev acc).
+  let '(c', acc) := visit_document trace_step s d c [] in (c', rev acc).
 Definition trace (s : sdocument) (d : document) : list (event * ctx) := snd (tr_document s d ctx0).
 
 (* what a visitor can observe of the context: the six current_* answers *)
